@@ -191,6 +191,16 @@ def build_traces(path, tier, seed):
         if 0 < ind0 < n - 1:
             add({"kind": "levels", "v": enc_seq(v), "ind": ind0, "pre": enc(pre), "post": enc(post)},
                 {"kind": "levels", "n": n, "ind": ind0, "default_split": True, "history": "error of another series with the same ends computed just before"})
+    if tier == "thorough":
+        # one series long enough for the n x n work matrices to exceed 256 MiB (n > 5792), riding on a large offset: the error at a
+        # handful of splits (a full evaluation is quadratic)
+        n = 5800 + int(rng.integers(0, 200))
+        v = 3.0e5 + rng.standard_normal(n)
+        v[n // 2:] -= 2.0
+        err = np.asarray(av.calc_step_fn_vals_error(v, pow=1), dtype=float)
+        idx = sorted(set([1, n // 2, n // 2 + 1, n - 1, n] + [int(t_) for t_ in rng.integers(2, n, size=4)]))
+        add({"kind": "steperr_at", "v": enc_seq(v), "pow": 1, "idx": idx, "vals": enc_seq(err[np.array(idx) - 1] if len(err) == n else []), "len_ok": bool(len(err) == n)},
+            {"kind": "steperr_at", "n": n, "pow": 1, "offset": 3.0e5, "splits": idx})
     # design spectra
     g = 9.81
     bounds = {"C": [0.1, 0.3, 1.5, 3.0], "D": [0.1, 0.56, 1.5, 3.0], "E": [0.1, 1.0, 1.5, 3.0]}
